@@ -226,7 +226,7 @@ impl ClientState {
     pub fn contains_topic_partition(&self, topic: &str, partition_id: i32) -> bool {
         self.topic_partitions
             .get(topic)
-            .map(|tp| tp.partition(partition_id))
+            .and_then(|tp| tp.partition(partition_id))
             .is_some()
     }
 
